@@ -655,7 +655,9 @@ pub fn run(tier: &str) -> i32 {
     }
 
     // Miri tier: thorough always; quick only when the inventory is non-empty
-    let miri_seeds: u64 = if quick { if inv.is_empty() { 0 } else { 16 } } else { 64 };
+    // quick: a few seeds always (safety net for shared state the source inventory
+    // cannot see), more when the inventory is non-empty; thorough: 64
+    let miri_seeds: u64 = if quick { if inv.is_empty() { 4 } else { 16 } } else { 64 };
     if miri_seeds > 0 {
         match miri_tier(vs, miri_seeds) {
             Ok((n, None)) => {
